@@ -10,6 +10,16 @@ import tempfile
 from contextlib import contextmanager
 
 
+# every temporary file of a bounded run (the contexts' own `wikitextprocessor_tempdb*` databases included) lives in
+# one scratch directory that is removed when the run ends
+import atexit
+import shutil
+
+_SCRATCH = tempfile.mkdtemp(prefix="verif_bounded_")
+tempfile.tempdir = _SCRATCH
+atexit.register(shutil.rmtree, _SCRATCH, True)
+
+
 def payload():
     return json.loads(sys.stdin.read() or "{}")
 
